@@ -70,3 +70,13 @@ package Electiontrigger
 //@ func NewTimerBasedElectionTrigger
 //@   props C19 C12
 //@   ensures [fresh] result != nil && result.electionChannel != nil && result.minTimeout == minTimeout && result.electionHandler == nil && result.timer == nil && result.triggerCancelled == nil
+
+// the callback a trigger carries calls the registered handler back with exactly the registered (height, view)
+//@ dep freevar:(*Electiontrigger.TimerBasedElectionTrigger).RegisterOnElection$1$1.moveToNextLeader
+//@   params blockHeight view onElectionCB
+//@   modifies *
+//@   ensures true
+//@ func (*TimerBasedElectionTrigger).RegisterOnElection$1$1
+//@   props C19
+//@   modifies *
+//@   assert before call moveToNextLeader [O19.the-trigger-calls-the-handler-back-with-the-registered-height-and-view] $blockHeight == blockHeight && $view == view
